@@ -7,6 +7,7 @@ import (
 	"go/types"
 	"os"
 	"sort"
+	"strconv"
 	"strings"
 
 	"golang.org/x/tools/go/packages"
@@ -155,6 +156,15 @@ func (w *World) lookupFunc(key string) *ssa.Function {
 		parts := strings.Split(key, ".")
 		if parts[0] != sp.Pkg.Name() {
 			continue
+		}
+		// function literal by ordinal: "<parent key>$N"
+		if i := strings.LastIndex(key, "$"); i > 0 && !strings.Contains(key[i:], "(") {
+			if n, err := strconv.Atoi(key[i+1:]); err == nil {
+				if parent := w.lookupFunc(key[:i]); parent != nil && n >= 1 && n <= len(parent.AnonFuncs) {
+					return parent.AnonFuncs[n-1]
+				}
+				return nil
+			}
 		}
 		switch len(parts) {
 		case 2:
